@@ -16,7 +16,7 @@ package status
 //@ func (*Tracker).TryCommit
 //@   requires [ri] trackerRI(t)
 //@   ensures [C01,C04:ri] trackerRI(t)
-//@   ensures [C01,C04:single-owner] result1 == !old(tracked(t, target))
-//@   ensures [C01,C04:channel-of-key] tracked(t, target) && result0 == doneChan(t, target)
+//@   ensures [C01,C02,C04:single-owner] result1 == !old(tracked(t, target))
+//@   ensures [C01,C02,C04:channel-of-key] tracked(t, target) && result0 == doneChan(t, target)
 //@   ensures [C01,C04:entries-stable] forall m *sync.Map, k any :: old(syncHas(m, k)) ==> syncHas(m, k) && syncVal(m, k) == old(syncVal(m, k))
 //@   modifies ghost.syncHas, ghost.syncVal, ghost.syncVersion, alloc
